@@ -110,6 +110,10 @@ type Store struct {
 	Calls   int
 	Log     []CallInfo
 	Plan    func(c CallInfo) Outcome
+	// FailErr, if set and returning non-nil, is the error a call with outcome Fail gets instead
+	// of the generic internal server error (an API error class the code under test might be
+	// tempted to branch on: no kind match, timeout, unavailable, ...).
+	FailErr func(c CallInfo) error
 	crashed bool
 
 	// Hooks for monitors and schedulers. Called without the lock held.
@@ -266,6 +270,11 @@ func (s *Store) begin(c *CallInfo) (Outcome, error) {
 	c.Outcome = o.String()
 	switch o {
 	case Fail:
+		if s.FailErr != nil {
+			if e := s.FailErr(*c); e != nil {
+				return o, e
+			}
+		}
 		return o, kerrors.NewInternalError(fmt.Errorf("simstore: injected server error"))
 	case Conflict:
 		if c.IsWrite() {
